@@ -308,10 +308,35 @@ func runScript(id int, r *rand.Rand, nSteps int) {
 			return
 		}
 	}
+	if id%3 == 0 {
+		// boundary prologue: exactly one failed call on endpoint 0 (connection refused), 6 s pass, a
+		// status check: one failure must not take it out of rotation
+		trace = append(trace, step{Op: "mode", Ep: 0, Mode: "refuse"})
+		eps[0].setMode("refuse")
+		for k := 0; k < 3*nEp && models[0].failSince == 0; k++ {
+			trace = append(trace, step{Op: "calls", N: 1})
+			if !doCall() {
+				return
+			}
+		}
+		trace = append(trace, step{Op: "advance", Delta: 6})
+		cl.SP.VerifShiftHealthClock(6)
+		shifted += 6
+		trace = append(trace, step{Op: "check"})
+		if !check() {
+			return
+		}
+		trace = append(trace, step{Op: "mode", Ep: 0, Mode: "ok"})
+		eps[0].setMode("ok")
+		run.Add("single_failure_prologues", 1)
+	}
 	for s := 0; s < nSteps; s++ {
 		switch c := r.Intn(10); {
 		case c < 4:
 			n := 3 + r.Intn(10)
+			if r.Intn(3) == 0 {
+				n = 1 + r.Intn(2) // a single call (one failure, then a status check) is a boundary of its own
+			}
 			trace = append(trace, step{Op: "calls", N: n})
 			for k := 0; k < n; k++ {
 				if !doCall() {
